@@ -393,7 +393,7 @@ def accept(ctx, report, rule, facts, config, want=("chain", "accept", "cap")):
     if len(cl) != 3 or any(v is None for v in cl.values()):
         raise AnchorError("insertion_target is expected to use three closures (evaluate, accept, to_target), found %s" % ch["closures"])
     ev, acc_c, to_t = cl[0], cl[1], cl[2]
-    if "accept" in want or "cap" in want:
+    if "accept" in want or "cap" in want or "accept-sound" in want:
         report.touched(acc_c, config)
         table = {}
         for p in enumerate_paths(acc_c, facts):
@@ -407,12 +407,14 @@ def accept(ctx, report, rule, facts, config, want=("chain", "accept", "cap")):
                 else:
                     extra.append((ct, cv))
             table.setdefault(variant, []).append((extra, p.ret))
-        problems = []
+        problems = []       # completeness: nothing acceptable is rejected for another reason (C10)
+        sound = []          # soundness: nothing with several conflicts is accepted (C01/C02/C03)
         cap_ok = None
         if [r for _, r in table.get("None", [])] != [("int", 1)]:
             problems.append("a stage without any conflicting group is not always accepted")
         if [r for _, r in table.get("Multiple", [])] != [("int", 0)]:
             problems.append("a stage with several conflicting groups is not always rejected")
+            sound.append("a stage with several conflicting groups is not always rejected")
         single = table.get("Single", [])
         k_found = None
         for extra, ret in single:
@@ -446,6 +448,9 @@ def accept(ctx, report, rule, facts, config, want=("chain", "accept", "cap")):
         if "accept" in want:
             report.ob(rule, "insertion_target/accept-table", not problems, "; ".join(sorted(set(problems))) if problems else
                       "None -> accept; Multiple -> reject; Single(g) -> len(groups[g]) < K && improves_balance(stage, g)", site=acc_c.loc(), config=config)
+        if "accept-sound" in want:
+            report.ob(rule, "insertion_target/accept-sound", not sound, "; ".join(sorted(set(sound))) if sound else
+                      "a stage with several conflicting groups is never accepted", site=acc_c.loc(), config=config)
         if "cap" in want:
             caps = set()
             for path_, fld in ((A.STAGE, "groups"), (A.SB, "ids")):
@@ -463,7 +468,7 @@ def accept(ctx, report, rule, facts, config, want=("chain", "accept", "cap")):
             report.ob(rule, "insertion_target/capacity", ok,
                       "a group is joined only while len < %s; ArrayVec capacity of both group tables is %s" % (k_found, sorted(caps)),
                       site=acc_c.loc(), config=config)
-    if "accept" in want:
+    if "accept" in want or "accept-sound" in want:
         # to_target: None -> Stage(s), Single(g) -> Group(s, g), Multiple -> unreachable
         report.touched(to_t, config)
         table = {}
